@@ -707,8 +707,8 @@ func vC18Shutdown(x *vC18Ctx) {
 			if seen[sig] == 1 {
 				x.direct(sig, detail, cs) // the first script of each shape is reported
 			}
-			if x.obs.Ops["violations"] >= 24 {
-				break // (every deadlocked script leaves its goroutines behind)
+			if x.obs.Ops["violations"] >= 24 || seen["deadlock:cluster.go:Shutdown~unknown"] >= 2 {
+				break // (every deadlocked script leaves its goroutines behind; an unclassified one costs a whole watchdog period)
 			}
 		}
 	}
